@@ -355,6 +355,60 @@ func sameBucketTxs(n int) []*wire.MsgTx {
 	panic("no bucket collision found")
 }
 
+// everyBucketTxs returns 256 transactions, one for every value of the first txid byte (the tx
+// manager shards its table by that byte).
+func everyBucketTxs() []*wire.MsgTx {
+	r := make([]*wire.MsgTx, 256)
+	found := 0
+	for i := 0; found < 256 && i < 200000; i++ {
+		tx := mkTx(10000 + i)
+		if b := tx.TxHash()[0]; r[b] == nil {
+			r[b] = tx
+			found++
+		}
+	}
+	if found != 256 {
+		panic("not every first byte found")
+	}
+	return r
+}
+
+// everyBucketScenario: one undelivered transaction per shard (first txid byte 0x00..0xff), each
+// announced by two peers; after the request timeout one poll of the second announcer with a large
+// maximum must offer every one of the 256, and a second poll nothing.
+func everyBucketScenario() func() func() []string {
+	return func() func() []string {
+		txm := bitcoin_reader.NewTxManager(txTimeout)
+		txs := everyBucketTxs()
+		p0, p1 := uuid.New(), uuid.New()
+		for _, tx := range txs {
+			txm.AddTxID(bg, p0, *tx.TxHash())
+			txm.AddTxID(bg, p1, *tx.TxHash())
+		}
+		vsched.Advance(txTimeout + time.Second)
+		first, _ := txm.GetTxRequests(bg, p1, 100000)
+		second, _ := txm.GetTxRequests(bg, p1, 100000)
+		return func() []string {
+			var problems []string
+			listed := map[bitcoin.Hash32]int{}
+			for _, id := range first {
+				listed[id]++
+			}
+			for b, tx := range txs {
+				if listed[*tx.TxHash()] != 1 {
+					problems = append(problems, fmt.Sprintf("retry-offer-every-shard: the timed-out transaction whose txid starts with 0x%02x was offered to its second announcer %d times by a poll after the timeout, expected once (%d of 256 offered)", b, listed[*tx.TxHash()], len(first)))
+					break
+				}
+			}
+			if len(second) != 0 {
+				problems = append(problems, fmt.Sprintf("retry-offer-every-shard: a second poll inside the new request window offered %d transactions again", len(second)))
+			}
+			label(fmt.Sprintf("first=%d second=%d", len(first), len(second)))
+			return problems
+		}
+	}
+}
+
 // pollCapScenario: several undelivered transactions announced by two peers, the first request
 // timed out, and the second announcer is polled with a small maximum until nothing is returned:
 // every transaction must be offered to that peer exactly once over the polls (a transaction that
@@ -637,6 +691,7 @@ func c06Scenarios(thorough bool) []*scenario {
 			}
 		}
 	}
+	r = append(r, &scenario{name: "txmanager/poll-covers-every-shard", bounds: []int{0}, body: everyBucketScenario(), steps: 200000})
 	// Clean running next to the handlers: ~770 scheduling points per Clean (256 buckets), bound 1
 	r = append(r, &scenario{name: "txmanager/clean-while-announcing", bounds: []int{0, 1}, body: cleanScenario(false), steps: 50000})
 	r = append(r, &scenario{name: "txmanager/clean-while-delivering", bounds: []int{0, 1}, body: cleanScenario(true), steps: 50000})
@@ -644,6 +699,11 @@ func c06Scenarios(thorough bool) []*scenario {
 		for _, e := range []int{1, 2, 5} {
 			r = append(r, &scenario{name: fmt.Sprintf("txmanager/announcer-sets/%d-txs-%d-later-announcers", n, e), bounds: []int{0}, body: announcerSetsScenario(n, e), steps: 50000})
 		}
+	}
+	// the node manager's retry poll over three real nodes, some of them stopping (outgoing queue
+	// closed, not yet marked not-ready)
+	for mask := 0; mask < 8; mask++ {
+		r = append(r, &scenario{name: fmt.Sprintf("nodemanager/retry-poll/stopping-%03b", mask), bounds: []int{0}, body: mgrPollScenario(mask), steps: 20000000})
 	}
 	r = append(r, &scenario{name: "txmanager/clean-cut-off-between-request-and-delivery", bounds: []int{0}, body: cleanCutoffScenario(), steps: 50000})
 	if thorough {
